@@ -74,7 +74,7 @@ mtext("C13",
 V_TREES = {"rel": 0.8, "asan": 0.1, "dbg": 0.1}
 check("C01", "exploration",
       [dict(world="trees", mode=1, variants=V_TREES, quick=60000, thorough=6000000),
-       dict(world="trees", mode=121, variants={"rel": 0.5, "asan": 0.5}, quick=64, thorough=4000),      # plain trees 4100 ... 30000 levels deep, with teeth
+       dict(world="trees", mode=121, variants={"rel": 0.5, "asan": 0.5}, quick=256, thorough=4000),      # plain trees 4100 ... 30000 levels deep, with teeth
        dict(world="trees", mode=120, variants={"rel": 1.0}, quick=0, thorough=12)],      # 2^32 modifications in a row: about 100 s per run; binary / red-black x three counts x two kinds of round
       RULE_SEQ, ["src/bintree.c", "src/rbtree.c", "include/cstl/bintree.h", "include/cstl/rbtree.h"],
       required_probes=["insert_hinted", "erase_leaf", "erase_one_child", "erase_two_children_succ_is_child",
@@ -315,7 +315,7 @@ V_C15 = {"asan": 0.5, "rel": 0.4, "dbg": 0.1}
 check("C15", "exploration",
       [dict(world="trees", mode=15, variants=V_C15, quick=30000, thorough=1000000),
        dict(world="trees", mode=102, variants={"rel": 0.5, "asan": 0.5}, quick=8, thorough=300),
-       dict(world="trees", mode=121, variants={"rel": 0.5, "asan": 0.5}, quick=64, thorough=4000),
+       dict(world="trees", mode=121, variants={"rel": 0.5, "asan": 0.5}, quick=256, thorough=4000),
        dict(world="heap", mode=15, variants=V_C15, quick=30000, thorough=1000000),
        dict(world="lists", mode=15, variants=V_C15, quick=30000, thorough=1000000),
        dict(world="map", mode=15, variants={"asan": 0.5, "rel": 0.5}, quick=30000, thorough=1000000),
